@@ -188,3 +188,5 @@ func replayFile(path string) {
 var replayers = map[string]func(prop string, raw json.RawMessage) bool{}
 
 type sessrepGraph = sessrep.Graph
+
+func asStuck(err error, target **drv.StuckError) bool { return errors.As(err, target) }
